@@ -48,6 +48,44 @@ theorem substring_nan (s : Chars) (rl : Option Num) (rp : Num) :
       simp [keepPos, this, Num.lt, Num.ext]
     simp [this]
 
+/-- **substring_zero_sign** — `substring` does not see the SIGN of a zero position or length (the
+    only thing the §4.4 rule "negative zero for arguments in [-0.5, 0)" of `round` changes): the
+    positions are compared with IEEE comparisons, where `-0 = +0`, and `-0 + l`, `+0 + l` are the same
+    number when `l` is a double (`Num.rnd b = .fin b`, see `C06.rnd_fixes_doubles`; the result of
+    `round` on a double is a double). -/
+theorem substring_zero_sign (s : Chars) :
+    substringR s .nzero none = substringR s (.fin 0) none ∧
+    (∀ l : Num, (∀ b, l = .fin b → Num.rnd b = .fin b) →
+      substringR s .nzero (some l) = substringR s (.fin 0) (some l)) ∧
+    (∀ rp : Num, (∀ a, rp = .fin a → Num.rnd a = .fin a) →
+      substringR s rp (some .nzero) = substringR s rp (some (.fin 0))) := by
+  refine ⟨?_, fun l hl => ?_, fun rp hrp => ?_⟩
+  · rw [substring_spec, substring_spec]
+    have : ∀ q, keepPos .nzero none q = keepPos (.fin 0) none q := fun _ => rfl
+    simp only [this]
+  · rw [substring_spec, substring_spec]
+    have : ∀ q, keepPos .nzero (some l) q = keepPos (.fin 0) (some l) q := by
+      intro q
+      cases l with
+      | fin b =>
+        have e : Num.add (.fin 0) (.fin b) = .fin b := by
+          show Num.rnd (0 + b) = .fin b
+          rw [Rat.zero_add]; exact hl b rfl
+        simp only [keepPos, e]; rfl
+      | _ => rfl
+    simp only [this]
+  · rw [substring_spec, substring_spec]
+    have : ∀ q, keepPos rp (some .nzero) q = keepPos rp (some (.fin 0)) q := by
+      intro q
+      cases rp with
+      | fin a =>
+        have e : Num.add (.fin a) (.fin 0) = .fin a := by
+          show Num.rnd (a + 0) = .fin a
+          rw [Rat.add_zero]; exact hrp a rfl
+        simp only [keepPos, e]; rfl
+      | _ => rfl
+    simp only [this]
+
 /-- the builtin applies the semantics' `round` to both numeric arguments -/
 theorem substring_builtin (sem : Sem) (c : Ctx) (s p l : Val) :
     builtin sem c "substring".toList [s, p] =
